@@ -248,7 +248,8 @@ def impl_predicates(pid, op, impl):
     if "BAD-STRUCTURE(" in impl:
         hits.append(("C05", "a decoder accepted an input that does not have the structure C05 demands: " + impl[impl.index("BAD-STRUCTURE("):][:120]))
     if "TAGGED-LABEL" in impl:
-        hits.append(("C05", "a decoder accepted a header label that is a tagged item, not an integer or text"))
+        iskey = op.startswith("dec key") or op.startswith("keyuse")
+        hits.append(("C15" if iskey else "C05", "a decoder accepted a label that is a tagged item, not an integer or text"))
     if "empty-signature-emitted" in impl:
         hits.append(("C20", "a structure with an empty signature was encoded"))
     if impl.startswith("nondet"):
